@@ -74,6 +74,15 @@ theorem C07_generator_no_panic (vf : VFile.File) (enc : Encode.Enc) (he : Encode
   obtain ⟨fm, _, mok⟩ := Machine.machineOf_ok ok.terms hm
   exact NoPanic.machineToTable_no_panic ok mok site
 
+/-- the conversion of an unexpected token into `KikiErr::Parse` cannot panic -/
+theorem C07_parse_error_no_panic (src : Str) (toks : List Token) (htok : Tokenize.tokenize src = .ok toks) (fuel : Nat)
+    (idx : Option Nat) (h : FrontParse.parse toks fuel = some (.unexpected idx)) :
+    ∃ e, FrontParse.unexpectedToErr src (idx.bind (toks[·]?)) = .ok e := by
+  obtain ⟨h1, h2, h3⟩ := C09.C09_error_span src toks htok fuel idx h
+  cases hb : idx.bind (toks[·]?) with
+  | none => exact ⟨_, h3⟩
+  | some t => exact ⟨_, h2 t hb⟩
+
 end KikiVerif.C07
 
 #print axioms KikiVerif.C07.bracketScan_no_panic
@@ -83,3 +92,4 @@ end KikiVerif.C07
 #print axioms KikiVerif.C07.C07_cst_to_ast_total
 #print axioms KikiVerif.C07.C07_validate_no_panic
 #print axioms KikiVerif.C07.C07_generator_no_panic
+#print axioms KikiVerif.C07.C07_parse_error_no_panic
